@@ -3,7 +3,7 @@
 # Like try_seeded.sh but never touches /repo: the patch is applied to a scratch worktree
 # (/tmp/alt-repo) and a scratch copy of the harness is built against it (/tmp/alt-harness,
 # /tmp/alt-target). Evidence and replay files go to /tmp/alt-root. Only for sensitivity experiments
-# while something else (e.g. a long thorough run) is using /repo. gv-only checks (not C12/C14/C09).
+# while something else (e.g. a long thorough run) is using /repo. C12 and C14 build the CLI / Python extension from the scratch worktree too (C09 reads table boundaries from /repo, which only steers its sweep).
 set -u
 PATCH="$(readlink -f "$1")"; tier="$2"; shift 2
 ROOT="$(cd "$(dirname "${BASH_SOURCE[0]}")/.." && pwd)"
@@ -17,7 +17,18 @@ rsync -a --delete --exclude target "$ROOT/harness/" /tmp/alt-harness/
 sed -i "s#grex = { path = \"/repo\" }#grex = { path = \"$ALT\" }#" /tmp/alt-harness/Cargo.toml
 cp "$ROOT/known_findings.json" /tmp/alt-root/; rsync -a --delete "$ROOT/replays/regress" /tmp/alt-root/replays/
 if ! (cd /tmp/alt-harness && cargo build --release --offline --target-dir /tmp/alt-target >/tmp/alt-build.log 2>&1); then echo "alt build failed"; tail -20 /tmp/alt-build.log; exit 2; fi
+mkdir -p /tmp/alt-root/py; cp -f "$ROOT/py/driver.py" /tmp/alt-root/py/
 for id in "$@"; do
+  case "$id" in
+    C12)
+      (cd "$ALT" && env -u RUSTFLAGS cargo build --release --offline --bin grex --target-dir /tmp/alt-target/cli >/tmp/alt-build-cli.log 2>&1) || { echo "C12 infra: alt CLI build failed"; continue; }
+      export GV_GREX_BIN=/tmp/alt-target/cli/release/grex ;;
+    C14)
+      PY=/root/.pyenv/versions/3.11.7/bin/python3.11
+      (cd "$ALT" && env -u RUSTFLAGS PYO3_PYTHON=$PY cargo build --release --offline --lib --no-default-features --features "python pyo3/extension-module" --target-dir /tmp/alt-target/py >/tmp/alt-build-py.log 2>&1) || { echo "C14 infra: alt python build failed"; continue; }
+      cp -f /tmp/alt-target/py/release/libgrex.so /tmp/alt-target/py/grex.so
+      export GV_PYTHON=$PY GV_PY_DIR=/tmp/alt-target/py ;;
+  esac
   out="$(GV_ROOT=/tmp/alt-root GV_SKIP_REGRESS=1 /tmp/alt-target/release/gv check "$id" "$tier" 2>&1)"; rc=$?
   case $rc in
     1) echo "$id caught: $(echo "$out" | grep -m1 -- '--- violation' | cut -c1-260)";;
